@@ -357,8 +357,10 @@ def resetOk (s : State) (o : Obj) : Bool :=
 def allFresh (s : State) : Bool :=
   (List.range s.nodes.length).all fun n => s.cachedOf n == nodeState s n
 
-def isPerm (l l' : List Nat) : Bool :=
-  l.length == l'.length && l.all (l'.contains ·) && l'.all (l.contains ·)
+/-- the fork list rebuilt at restart: known forks only, none twice -/
+def isSubNodup : List Nat → List Nat → Bool
+  | [], _ => true
+  | a :: r, l' => l'.contains a && !r.contains a && isSubNodup r l'
 
 /-- named guards: the event is enabled iff all hold; the name of the first
 failing one is the rejection reason. -/
@@ -374,7 +376,7 @@ def guards (s : State) : Ev → List (String × Bool)
                   ("fork-exists", !(s.forksOf n).contains f),
                   ("expansion-of-finished-or-running-node",
                     s.phase != Phase.normal || (!nodeDone s n && s.cachedOf n != NState.running))]
-  | .forkorder n l => [("only-at-load", s.phase == .loading), ("not-a-permutation", isPerm l (s.forksOf n))]
+  | .forkorder n l => [("only-at-load", s.phase == .loading), ("not-a-sublist-of-known-forks", isSubNodup l (s.forksOf n))]
   | .mkchunks n f k =>
       [("mrp-dead", s.phase != Phase.crashed), ("no-such-fork", s.hasObj ⟨n, f, .fork⟩),
        ("pipeline-has-no-chunks", s.kind n != Kind.pipeline),
